@@ -113,8 +113,8 @@ pub fn sequences(alphabet: &[&str], max_len: usize) -> Vec<Vec<String>> {
 }
 
 const LEX: &[&str] = &["a", "b", "ab", "  a", "b  ", "", "   ", "B", "é", "\u{a0}b\u{3000}", "\u{2003}"];
-const NUM: &[&str] = &["2", "10", "9.5", "-3", " 2", "", "2.0", "\u{3000}10\u{a0}"];
-const IDS: &[&str] = &["id:1", "x id:10 y", "id:9", "  id:10", "nomatch", "", "id:x id:2"];
+const NUM: &[&str] = &["2", "10", "9.5", "-3", " 2", "", "2.0", "\u{3000}10\u{a0}", "007"];
+const IDS: &[&str] = &["id:1", "x id:10 y", "id:9", "  id:10", "nomatch", "", "id:x id:2", "id:007"];
 const KS: &[&str] = &["ka", "kb", "kab", " ka", "kB", "k", "ka b"];
 const DIRS: &[Option<&str>] = &[None, Some(""), Some("asc"), Some("ASC"), Some("desc"), Some("Desc")];
 
@@ -189,7 +189,7 @@ fn long_spec() -> BoxedStrategy<KsSpec> {
             }
             KsSpec { dir, pat: None, format: None, lines, indent }
         });
-    let numeric = (dir, proptest::collection::vec((-500i32..500, 0u8..3, any::<bool>()), 6..80), 0u8..3, any::<u64>(), any::<bool>()).prop_map(
+    let numeric = (dir, proptest::collection::vec((-500i32..500, 0u8..4, any::<bool>()), 6..80), 0u8..3, any::<u64>(), any::<bool>()).prop_map(
         |(dir, nums, perturb, salt, with_pat)| {
             let desc = models::dir_of(dir.as_deref().unwrap_or("")) == Some(models::Dir::Desc);
             let mut ns = nums;
@@ -213,11 +213,13 @@ fn long_spec() -> BoxedStrategy<KsSpec> {
                     let num = match frac {
                         0 => format!("{v}"),
                         1 => format!("{v}.0"),
+                        3 if v >= 0 => format!("{v:05}"),
                         _ => format!("{v}.50"),
                     };
                     if with_pat {
                         // only integers are in the pattern family's value group
-                        format!("key{k} ={}{v}  # n", if sp { " " } else { "" })
+                        let vv = if frac == 3 && v >= 0 { format!("{v:05}") } else { format!("{v}") };
+                        format!("key{k} ={}{vv}  # n", if sp { " " } else { "" })
                     } else {
                         format!("{}{num}", if sp { "  " } else { "" })
                     }
@@ -240,7 +242,7 @@ pub fn random_batch() -> BoxedStrategy<KsBatch> {
 }
 
 pub fn run(run: &mut Run) {
-    run.rule = "enumerated: every line sequence of length 0..k (k=4 quick, 5 thorough) over per-configuration alphabets (ordered/equal/prefix-related/indented/blank/numeric-looking lines) x 6 direction spellings x 10 (pattern, format) configurations (the `value` group in both spellings, `(?P<value>…)` and `(?<value>…)`) (two of them with patterns that can match the empty string, so that matching lines with an empty key occur), batched into one file per 400 blocks and run through the real CLI; random: blocks of 6..120 lines (sorted then perturbed by 0..3 swaps; Unicode words; nested block tag lines as keys; numeric with/without pattern). Non-trivial block = at least 2 keys and (an equal or prefix-related adjacent pair, or a skipped line); distinct by (batch, block).".into();
+    run.rule = "enumerated: every line sequence of length 0..k (k=4 quick, 5 thorough) over per-configuration alphabets (ordered/equal/prefix-related/indented/blank/numeric-looking and zero-padded lines) x 6 direction spellings x 10 (pattern, format) configurations (the `value` group in both spellings, `(?P<value>…)` and `(?<value>…)`) (two of them with patterns that can match the empty string, so that matching lines with an empty key occur), batched into one file per 400 blocks and run through the real CLI; random: blocks of 6..120 lines (sorted then perturbed by 0..3 swaps; Unicode words; nested block tag lines as keys; numeric with/without pattern). Non-trivial block = at least 2 keys and (an equal or prefix-related adjacent pair, or a skipped line); distinct by (batch, block).".into();
     run.assumptions = vec![
         "content lines are shell/ruby words, which tree-sitter parses without touching the tag comments (block discovery itself is C03)".into(),
         "numeric keys are plain finite decimals; regexes come from a fixed family with hand-written extractors".into(),
